@@ -178,6 +178,18 @@ def stepLine (d : DrvSt) (toks : List String) : DrvSt × String :=
     | some i => (d, encStrs (d.fs.getStrings i))
     | none => (d, "bad-op")
   | ["fresh"] => (d, encStrs (loadFile utf8 d.fs.file))
+  | ["tapp", _i, ts, s] =>
+    match decStr ts, decStr s with
+    | some ts, some s =>
+      let fs := d.fs.wrapAppend utf8 ts s
+      ({ d with fs := fs }, encBytes fs.file)
+    | _, _ => (d, "bad-op")
+  | ["tload", i] =>
+    match decNat i with
+    | some i =>
+      let (fs, l) := d.fs.wrapLoad utf8 i
+      ({ d with fs := fs }, encStrs l)
+    | none => (d, "bad-op")
   | ["trunc", k] =>
     match decNat k with
     | some k => (d, encStrs (loadFile utf8 (d.fs.file.take k)))
